@@ -1619,8 +1619,8 @@ def repeat(a, n, axis=None):
     fa = a.snapshot()
     cn = conc(n)
     if cn is None:
-        # repeating a singleton axis n (symbolic) times
-        if conc(a._shape[axis]) != 1:
+        # repeating a singleton axis n (symbolic) times; "the extent is 1" may be a fact of the path rather than syntax
+        if conc(a._shape[axis]) != 1 and not ctx().decide(zint(a._shape[axis]) == 1, "repeat: the axis is a singleton"):
             raise OutOfSubset("symbolic repeat count on a non-singleton axis")
         def fn(*idx):
             return fa(*(idx[:axis] + (0,) + idx[axis + 1:]))
